@@ -1,5 +1,6 @@
 import McpModel.Paginate.Lemmas
 import McpModel.Paginate.IterLemmas
+import McpModel.Paginate.Bridge
 import McpModel.Generated.PaginateGen
 /-!
 # C17 — property theorems for keyset pagination (model: `Paginate.paginate`, `trav`, `pull`)
@@ -153,6 +154,21 @@ theorem iterator_prefix (nil : C) (o : Nat → C → Res κ ν C) (steps : Nat) 
     (drain nil o steps (Iter.start cur)).1 <+: (manual nil o steps 0 cur).1.flatten := by
   have := drain_prefix nil o steps steps (Iter.start cur) (Nat.le_refl _)
   simpa [remaining, Iter.start] using this
+
+/-- **iterator_on_server.** The two halves put together for the concrete server: for every mutation
+history (batches applied between consecutive list requests), state, start cursor and page size, if
+the manual traversal `trav` ends (empty cursor or error), the client iterator run against the same
+server hands out exactly the concatenation of `trav`'s pages and ends the same way
+(`trav_eq_manual` in `Bridge`: `trav` is `manual` against `serverOracle`). -/
+theorem iterator_on_server (cod : Codec κ C) (p : Nat) (hist : List (List (Mut κ ν))) (s : FS κ ν) (cur : C)
+    (hend : (trav cod p hist s cur).ending ≠ .running) :
+    ∃ steps, drain cod.nil (serverOracle cod p hist s) steps (Iter.start cur) =
+      ((trav cod p hist s cur).pages.flatten, (trav cod p hist s cur).ending) := by
+  have e := trav_eq_manual cod p hist s cur
+  have := iterator_equals_manual_paging cod.nil (serverOracle cod p hist s) (hist.length + 1) cur
+    (by rw [e]; exact hend)
+  rw [e] at this
+  exact this
 
 /-! ### Non-vacuity -/
 
